@@ -631,51 +631,88 @@ func runVF07(p *Prog, r *RuleRun) {
 // ---------------------------------------------------------------- VF-14
 
 func runVF14(p *Prog, r *RuleRun) {
+	v := newWalVocab(p)
 	open := p.Func("", "Open")
-	if open == nil {
+	if open == nil || !checkWalAnchors(r, v, nil) {
 		r.Unknown("anchor", "?", "wal.Open not found")
 		return
 	}
 	isList := func(c *ssa.Call) bool { return eventName(c) == "types.SegmentFiler.List" }
-	var del *ssa.Call
+	pos := p.Position(open.Pos())
+	// (a)+(c) by event order on every path of Open: the directory is listed before any file is deleted, and
+	// before this Open creates any file (a file created after the listing can never be a sweep candidate;
+	// one created before it would be listed without being known to the persisted metadata)
+	spec := v.baseSpec("sweep-order")
+	spec.OnEvent = func(cx *Ctx, ev, phase string, ins ssa.Instruction, f *Fact) {
+		if phase != "call" {
+			return
+		}
+		switch ev {
+		case "SegmentFiler.Delete":
+			r.Check(f.Must["SegmentFiler.List:ok"], cx.Key(ins, "sweep-after-list"), posOf(p, ins), "files are deleted by Open only after a successful List()",
+				"Open deletes segment files on a path without a successful directory listing")
+		case "SegmentFiler.Create":
+			r.Check(f.Must["SegmentFiler.List:ok"], cx.Key(ins, "create-after-list"), posOf(p, ins), "every file this Open creates is created after the directory was listed, so it cannot be a sweep candidate",
+				"Open creates a segment file (new tail / completed rotation) before it lists the directory for the orphan sweep: the freshly created live file is in the listing but not among the persisted segments the sweep spares, so Open deletes it; via "+cx.Fr.Stack())
+		}
+	}
+	eng := newOrdEngine(p, spec)
+	eng.RunRoot(open, nil)
+	finishEngine(r, eng)
+	// (b) every persisted segment that is kept is excluded from the candidates before it is opened/recovered:
+	//     form A: delete(listing, seg.ID); form B: live[seg.ID] = ... with the listing filtered against `live` later
+	var excl []ssa.Instruction
 	var keep []ssa.Instruction
-	var sweepArgOK, sweepFound bool
 	for _, b := range open.Blocks {
 		for _, ins := range b.Instrs {
-			c, ok := ins.(*ssa.Call)
-			if !ok {
-				continue
-			}
-			switch {
-			case isBuiltinCall(c, "delete") && derivesFromCall(c.Call.Args[0], isList):
-				del = c
-			case eventName(c) == "types.SegmentFiler.Open" || eventName(c) == "types.SegmentFiler.RecoverTail":
-				keep = append(keep, c)
-			default:
-				// the sweep: a production callee receiving the List() map and reaching SegmentFiler.Delete
-				if callee := c.Call.StaticCallee(); callee != nil && p.IsProdFunc(callee) {
-					for _, a := range c.Call.Args {
-						if derivesFromCall(a, isList) && p.reaches(callee, func(ci ssa.CallInstruction) bool { return eventName(ci) == "types.SegmentFiler.Delete" }) {
-							sweepFound = true
-							sweepArgOK = true
+			switch x := ins.(type) {
+			case *ssa.Call:
+				switch {
+				case isBuiltinCall(x, "delete") && derivesFromCall(x.Call.Args[0], isList) && fieldLoadName(x.Call.Args[1]) == "ID":
+					excl = append(excl, x)
+				case eventName(x) == "types.SegmentFiler.Open" || eventName(x) == "types.SegmentFiler.RecoverTail":
+					keep = append(keep, x)
+				}
+			case *ssa.MapUpdate:
+				if fieldLoadName(x.Key) == "ID" {
+					// form B needs the filter: some function reachable from Open deletes from a List()-derived map under a lookup
+					filtered := false
+					for fn := range p.reachableFuncs(open) {
+						hasDel, hasLookup := false, false
+						for _, b2 := range fn.Blocks {
+							for _, i2 := range b2.Instrs {
+								if c, ok := i2.(*ssa.Call); ok && isBuiltinCall(c, "delete") && derivesFromCall(c.Call.Args[0], isList) {
+									hasDel = true
+								}
+								if _, ok := i2.(*ssa.Lookup); ok {
+									hasLookup = true
+								}
+							}
 						}
+						if hasDel && hasLookup {
+							filtered = true
+						}
+					}
+					if filtered {
+						excl = append(excl, x)
 					}
 				}
 			}
 		}
 	}
-	pos := p.Position(open.Pos())
-	r.Check(sweepFound && sweepArgOK, "wal.Open:sweep-set", pos, "the set handed to the sweep is the result of SegmentFiler.List()", "the orphan sweep in Open does not operate on the List() result")
-	if del == nil {
-		r.Fail("wal.Open:unlist", pos, "Open never removes the segments metadata names from the List() set: the sweep would delete live segment files")
-		return
+	if len(excl) == 0 {
+		r.Fail("wal.Open:unlist", pos, "Open never excludes the segments metadata names from the set of files it sweeps: the sweep would delete live segment files")
 	}
-	idOK := fieldLoadName(del.Call.Args[1]) == "ID"
-	r.Check(idOK, "wal.Open:unlist-key", posOf(p, del), "live segments are removed from the sweep set by their ID", "the sweep set is pruned by something other than the segment's ID")
 	for i, k := range keep {
-		r.Check(del.Block().Dominates(k.Block()) && (del.Block() != k.Block() || true), fmt.Sprintf("wal.Open:unlist-dominates#%d", i+1), posOf(p, k),
-			"the segment is taken off the sweep set before it is opened/recovered (on every path that keeps it)",
-			"a persisted segment can be opened/recovered on a path that did not remove it from the sweep set: Open would then delete a live segment file")
+		ok := false
+		for _, e := range excl {
+			if e.Block().Dominates(k.Block()) {
+				ok = true
+			}
+		}
+		r.Check(ok, fmt.Sprintf("wal.Open:unlist-dominates#%d", i+1), posOf(p, k),
+			"the segment is excluded from the sweep candidates before it is opened/recovered (on every path that keeps it)",
+			"a persisted segment can be opened/recovered on a path that did not exclude it from the sweep candidates: Open would then delete a live segment file")
 	}
 	if len(keep) < 2 {
 		r.Unknown("wal.Open:keep-sites", pos, "SegmentFiler.Open / RecoverTail calls not found in Open")
